@@ -76,13 +76,18 @@ def fop(op, a, b):
 def leaves(t):
     if t[0] == 'cid':
         return [t[1]]
-    if t[0] == 'const':
+    if t[0] in ('const', 'ref'):
         return []
     return leaves(t[2]) + leaves(t[3])
 
 
 def depth(t):
     return 0 if t[0] != 'bin' else 1 + max(depth(t[2]), depth(t[3]))
+
+
+def has_ref(t):
+    """('ref', n): the expression OBJECT that is registered as derived attribute n, re-used as an operand (shared link)"""
+    return t[0] == 'ref' or (t[0] == 'bin' and (has_ref(t[2]) or has_ref(t[3])))
 
 
 def tree_str(t, names):
@@ -125,6 +130,7 @@ class World(object):
         self.next = 0
         self.base = {}      # number -> object array of Fractions (full shape): the oracle's inputs
         self.defs = {}      # number -> (how, tree): the oracle's record of the derived attributes
+        self.links = {}     # number -> the BinaryComponentLink object of an attribute defined by operators (for sharing)
         self.model_comps = []
         self.nlabel = 0
         for j, (flags, small) in enumerate(spec['stored']):
@@ -191,7 +197,17 @@ class World(object):
             return self.objs[t[1]]
         if t[0] == 'const':
             return float(t[1])
+        if t[0] == 'ref':
+            return self.links[t[1]]       # the very link object of attribute t[1]: a shared sub-expression
         return PYOP[t[1]](self.build_ops(t[2]), self.build_ops(t[3]))
+
+    def inline(self, t):
+        """the expression a tree with shared sub-expressions stands for (what model and oracle work with)"""
+        if t[0] == 'ref':
+            return self.defs[t[1]][1]
+        if t[0] == 'bin':
+            return ('bin', t[1], self.inline(t[2]), self.inline(t[3]))
+        return t
 
     def add_derived(self, how, t, target=None):
         """target: number of an existing attribute to re-define in place (add_component_link(link, label=its id))"""
@@ -200,8 +216,12 @@ class World(object):
         from glue.core.parse import ParsedCommand, ParsedComponentLink
         lab = self.fresh_label() if target is None else None
         to_id = ComponentID(lab) if target is None else self.objs[target]
+        ti = self.inline(t)
+        t_real, t = t, ti       # parsed text / user functions work on the inlined expression (no sharing there)
+        link0 = None
         if how == 0:
-            link = self.build_ops(t)
+            link = self.build_ops(t_real)
+            link0 = link
             self.d.add_component(link, lab if target is None else to_id)
         elif how == 1:
             ids = dedup(leaves(t))
@@ -230,11 +250,16 @@ class World(object):
         if target is not None:
             if self.next != before:
                 raise RuntimeError('re-defining an attribute in place created a component')
-            self.defs[target] = (how, t)
+            self.defs[target] = (how, ti)
+            self.links.pop(target, None)
+            if link0 is not None:
+                self.links[target] = link0
             return target
         if self.next != before + 1:
             raise RuntimeError('add_derived did not create exactly one component')
-        self.defs[before] = (how, t)
+        self.defs[before] = (how, ti)
+        if link0 is not None:
+            self.links[before] = link0
         return before
 
     # -- oracle
@@ -371,6 +396,7 @@ class Runner(object):
             try:
                 n = W.add_derived(op[1], op[2])
                 r['new'] = n
+                r['tree'] = W.defs[n][1]
             except Exception as e:
                 r['error'] = type(e).__name__
             r['structure'] = W.structure()
@@ -412,6 +438,7 @@ class Runner(object):
             before = W.order()
             try:
                 W.add_derived(op[2], op[3], target=op[1])
+                r['tree'] = W.defs[op[1]][1]
             except Exception as e:
                 r['error'] = type(e).__name__
             if W.order() != before:
@@ -598,7 +625,12 @@ def evaluate(R, cases, stream, done=None):
                 if 'new' not in r:
                     ok_model = False
                     break
-                mops.append(['add', op[1], op[2], r['new']])
+                mops.append(['add', op[1], r['tree'], r['new']])
+            elif op[0] == 'redef':
+                if 'tree' not in r:
+                    ok_model = False
+                    break
+                mops.append(['redef', op[1], op[2], r['tree']])
             elif op[0] == 'updid':
                 mops.append(['updid', op[1], r['new']])
             elif op[0] == 'query':
@@ -761,8 +793,8 @@ def report(R, fails):
 
 def jsonable_case(case):
     def jt(t):
-        if t[0] == 'cid':
-            return ['cid', t[1]]
+        if t[0] in ('cid', 'ref'):
+            return [t[0], t[1]]
         if t[0] == 'const':
             return ['const', str(t[1])]
         return ['bin', t[1], jt(t[2]), jt(t[3])]
@@ -781,8 +813,8 @@ def jsonable_case(case):
 
 def case_from_json(j):
     def tj(t):
-        if t[0] == 'cid':
-            return ('cid', t[1])
+        if t[0] in ('cid', 'ref'):
+            return (t[0], t[1])
         if t[0] == 'const':
             return ('const', Fraction(t[1]))
         return ('bin', t[1], tj(t[2]), tj(t[3]))
@@ -853,6 +885,15 @@ def random_tree(rng, avail, d, expo=None):
     if l[0] == 'const' and r[0] == 'const':
         l = ('cid', rng.choice(avail))
     return ('bin', op, l, r)
+
+
+def share(rng, t, refs, p=0.35):
+    """replace some operands of t by ('ref', m): the link OBJECT of attribute m is re-used as that operand"""
+    if t[0] != 'bin':
+        return ('ref', rng.choice(refs)) if (refs and rng.random() < p) else t
+    if refs and rng.random() < p / 3:
+        return ('ref', rng.choice(refs))
+    return ('bin', t[1], share(rng, t[2], refs, p), share(rng, t[3], refs, p))
 
 
 def force_depth(rng, avail, d, expo):
@@ -960,6 +1001,15 @@ def stream_random(R):
                     how = 1
                 if how == 0 and t[0] == 'cid':
                     t = ('bin', '*', t, ('const', Fraction(1)))
+                refs = [x for x in live if x in W.links]
+                if refs and rng.random() < 0.45:
+                    # re-use the expression objects of existing attributes as operands (shared links)
+                    how = 0
+                    t = share(rng, t, refs)
+                    if t[0] != 'bin':
+                        t = ('bin', rng.choice(['+', '*', '-']), t, ('cid', rng.choice(live)))
+                    elif t[2][0] == 'const' and t[3][0] == 'const':
+                        t = ('bin', t[1], ('ref', rng.choice(refs)), t[3])
                 do(['add', how, t])
             elif r < 0.62:
                 do(['remove', rng.choice(live)])
@@ -978,6 +1028,14 @@ def stream_random(R):
                         t = ('bin', '+', ('cid', rng.choice(avail)), t)
                     if how == 0 and t[0] == 'cid':
                         t = ('bin', '*', t, ('const', Fraction(1)))
+                    refs = [x for x in avail if x in W.links]
+                    if refs and rng.random() < 0.4:
+                        how = 0
+                        t = share(rng, t, refs)
+                        if t[0] != 'bin':
+                            t = ('bin', '+', t, ('cid', rng.choice(avail)))
+                        elif t[2][0] == 'const' and t[3][0] == 'const':
+                            t = ('bin', t[1], ('ref', rng.choice(refs)), t[3])
                     do(['redef', tgt, how, t])
             elif r < 0.94:
                 perm = list(live)
@@ -1046,9 +1104,43 @@ def stream_closure(R):
                 cases.append({'spec': spec, 'ops': adds + [['remove', victim]]})
             cases.append({'spec': spec, 'ops': adds + [['updid', 1], ['remove', nb + len(names)]]})
             cases.append({'spec': spec, 'ops': adds + [['updid', pos['A']], ['query', pos[names[-1]], None], ['remove', 2]]})
+    # ---- expression objects shared between derived attributes (the same BinaryComponentLink object is registered as an
+    #      attribute of its own and re-used as left / right operand of larger expressions; diamonds through sharing)
+    c = lambda n: ('cid', n)
+    k = lambda q: ('const', Fraction(q))
+    b = lambda o, l, r: ('bin', o, l, r)
+    rf = lambda n: ('ref', n)
+    S, T, U, V, Wd = nb, nb + 1, nb + 2, nb + 3, nb + 4
+    defs_shared = {
+        'S': b('+', c(1), k(1)),
+        'T': b('*', rf(S), c(2)),                 # shared object as LEFT operand
+        'U': b('-', c(2), rf(S)),                 # shared object as RIGHT operand
+        'V': b('+', rf(T), rf(U)),                # diamond: both operands contain the object of S
+        'W': b('-', b('*', rf(S), k(2)), c(1)),   # shared object two levels down on the left
+    }
+    nshared0 = len(cases)
+    for order in (['S', 'T', 'U', 'V', 'W'], ['S', 'U', 'T', 'V', 'W'], ['S', 'W', 'T', 'U', 'V']):
+        pos = dict((nm, nb + i) for i, nm in enumerate(order))
+
+        def fix(t):
+            if t[0] == 'ref':
+                return ('ref', pos['STUVW'[t[1] - nb]])
+            if t[0] == 'bin':
+                return ('bin', t[1], fix(t[2]), fix(t[3]))
+            return t
+        adds = [['add', 0, fix(defs_shared[nm])] for nm in order]
+        for upto in (2, 3, 5):
+            for victim in [1, 2] + [nb + i for i in range(upto)]:
+                cases.append({'spec': spec, 'ops': adds[:upto] + [['remove', victim]]})
+        cases.append({'spec': spec, 'ops': adds + [['updid', 1], ['remove', 2]]})
+        cases.append({'spec': spec, 'ops': adds + [['updid', 2], ['query', pos['V'], None], ['remove', nb + 5]]})
+        cases.append({'spec': spec, 'ops': adds + [['updid', pos['S']], ['remove', 2]]})
+        cases.append({'spec': spec, 'ops': adds + [['redef', pos['S'], 0, b('*', c(2), k(2))], ['remove', 1]]})
+    nshared = len(cases) - nshared0
     # ---- position order decoupled from dependency order (a dependent may precede its input)
     patterns4 = patterns + [{'A': [2], 'B': ['A'], 'C': ['B'], 'D': ['C']}]        # + a chain of depth 4
     ncoupled = len(cases)
+    k = None
 
     def real_tree(pat, nm, pos):
         ins = [pos[x] if isinstance(x, str) else x for x in pat[nm]]
@@ -1093,7 +1185,8 @@ def stream_closure(R):
     for i in range(0, len(cases), 400):
         fl += evaluate(R, cases[i:i + 400], 'closure')
     report(R, fl)
-    R.stream('closure', cases=len(cases), exhaustive=True, insertion_order_cases=ncoupled, decoupled_order_cases=len(cases) - ncoupled,
+    R.stream('closure', cases=len(cases), exhaustive=True, insertion_order_cases=ncoupled - nshared, shared_expression_cases=nshared,
+             decoupled_order_cases=len(cases) - ncoupled,
              bound='dependency patterns of 4 derived attributes over 2 stored ones (two chains of depth 3 and 4, a diamond, a join); (i) every insertion '
                    'order compatible with the dependencies; (ii) every one of the 24 position orders of the derived attributes, reached by re-defining '
                    'placeholders in place (add_component_link(link, label=existing id)) and by reorder_components (derived block permuted, moved in front, '
